@@ -18,8 +18,8 @@ Definition is_kA2 (k : list kont) : bool := match k with [KAct ARetByIndex] => t
 Definition idle (th : lthread) : Prop := lt_k th = [].
 Definition nl_op (o : op) : Prop := match o with OStart _ => False | _ => True end.
 Definition nl_thread (th : lthread) : Prop := Forall nl_op (lt_todo th).
-Definition is_next (x : nat * op * obs) : bool := match snd (fst x) with ONext => true | _ => false end.
-Definition count_next (gh : list (nat * op * obs)) : nat := length (filter is_next gh).
+Definition is_next (x : nat * Z * op * obs) : bool := match snd (fst x) with ONext => true | _ => false end.
+Definition count_next (gh : list (nat * Z * op * obs)) : nat := length (filter is_next gh).
 
 (* ---------------------------------------------------------------- lists *)
 Lemma nth_lupd_same {A} (l : list A) i x y : nth_error l i = Some y -> nth_error (lupd i x l) i = Some x.
@@ -44,10 +44,12 @@ Proof.
   intros H. apply Forall_forall. intros x Hx. destruct (In_nth_error _ _ Hx) as [i Hi]. eauto.
 Qed.
 
-Lemma ghost_of_app j gh i o r :
-  ghost_of j (gh ++ [(i, o, r)]) = if Nat.eqb i j then ghost_of j gh ++ [r] else ghost_of j gh.
+Lemma ghost_of_app j gh i c o r :
+  ghost_of j (gh ++ [(i, c, o, r)]) =
+  if Nat.eqb i j && negb (is_ostart o) then ghost_of j gh ++ [r] else ghost_of j gh.
 Proof.
-  unfold ghost_of. rewrite filter_app, map_app. cbn. destruct (Nat.eqb i j); cbn; auto using app_nil_r.
+  unfold ghost_of. rewrite filter_app, map_app. cbn.
+  destruct (Nat.eqb i j && negb (is_ostart o)); cbn; auto using app_nil_r.
 Qed.
 
 Section Leaf.
@@ -57,18 +59,18 @@ Definition pend (st : Z) (th : lthread) : list obs :=
   if is_kA2 (lt_k th) then [next_res n d a st (lt_idx th)] else [].
 
 (* the ghost history is a legal sequential history of the atomic leaf started at [st], from counter [i] *)
-Fixpoint spec_res (st : Z) (i : nat) (gh : list (nat * op * obs)) : Prop :=
+Fixpoint spec_res (st : Z) (i : nat) (gh : list (nat * Z * op * obs)) : Prop :=
   match gh with
   | [] => True
-  | (_, ONext, r) :: t => r = next_res n d a st i /\ spec_res st (S i) t
-  | (_, OLeft, r) :: t => r = RLeft (Z.of_nat (n - i)) /\ spec_res st i t
-  | (_, OStart _, _) :: _ => False
+  | (_, _, ONext, r) :: t => r = next_res n d a st i /\ spec_res st (S i) t
+  | (_, _, OLeft, r) :: t => r = RLeft (Z.of_nat (n - i)) /\ spec_res st i t
+  | (_, _, OStart _, _) :: _ => False
   end.
 
-Lemma spec_res_app st gh : forall i j o r,
-  spec_res st i gh -> spec_res st (i + count_next gh) [(j, o, r)] -> spec_res st i (gh ++ [(j, o, r)]).
+Lemma spec_res_app st gh : forall i j c o r,
+  spec_res st i gh -> spec_res st (i + count_next gh) [(j, c, o, r)] -> spec_res st i (gh ++ [(j, c, o, r)]).
 Proof.
-  induction gh as [|[[j0 o0] r0] t IH]; intros i j o r H1 H2.
+  induction gh as [|[[[j0 c0] o0] r0] t IH]; intros i j c o r H1 H2.
   - cbn in *. now rewrite Nat.add_0_r in H2.
   - cbn [app]. destruct o0; cbn in H1 |- *; try tauto; destruct H1 as [E H1]; split; auto; apply IH; auto;
       unfold count_next in *; cbn in H2; rewrite ?Nat.add_succ_r in H2; auto.
@@ -77,17 +79,17 @@ Qed.
 Lemma spec_res_left_indep st st' gh : forall i,
   Forall (fun x => snd (fst x) = OLeft) gh -> spec_res st i gh -> spec_res st' i gh.
 Proof.
-  induction gh as [|[[j0 o0] r0] t IH]; intros i F H; cbn in *; auto.
+  induction gh as [|[[[j0 c0] o0] r0] t IH]; intros i F H; cbn in *; auto.
   inversion F; subst. cbn in H2. subst o0. destruct H as [E H]. split; auto.
 Qed.
 
-Lemma count_next_app gh j o r :
-  count_next (gh ++ [(j, o, r)]) = (count_next gh + match o with ONext => 1 | _ => 0 end)%nat.
+Lemma count_next_app gh j c o r :
+  count_next (gh ++ [(j, c, o, r)]) = (count_next gh + match o with ONext => 1 | _ => 0 end)%nat.
 Proof. unfold count_next. rewrite filter_app, app_length. cbn. destruct o; cbn; lia. Qed.
 
 Lemma count_next_left gh : Forall (fun x => snd (fst x) = OLeft) gh -> count_next gh = 0%nat.
 Proof.
-  induction 1 as [|[[j o] r] t E F IH]; auto. cbn in E. subst o. unfold count_next in *. cbn. exact IH.
+  induction 1 as [|[[[j c] o] r] t E F IH]; auto. cbn in E. subst o. unfold count_next in *. cbn. exact IH.
 Qed.
 
 (* link with the atomic leaf of Model/SchedTree.v *)
@@ -95,7 +97,7 @@ Lemma spec_res_run_tree st c fuel gh : forall i,
   spec_res st i gh ->
   run_tree (S fuel) (DoAt n d a i (Some st)) (map (fun x => (c, snd (fst x))) gh) = map snd gh.
 Proof.
-  induction gh as [|[[j o] r] t IH]; intros i H; auto.
+  induction gh as [|[[[j c0] o] r] t IH]; intros i H; auto.
   destruct o; cbn in H; try tauto; destruct H as [E H]; subst r.
   - cbn [map fst snd run_tree s_next]. unfold next_res.
     destruct (i <? n)%nat; cbn [map snd]; f_equal; apply IH; auto.
@@ -178,13 +180,13 @@ Proof.
   - apply spec_res_app; auto. cbn. rewrite Icn. split; auto.
   - rewrite count_next_app. lia.
   - intros j th' H'. rewrite ghost_of_app. apply nth_lupd_inv in H'. destruct H' as [[-> ->]|[Nj H']].
-    + rewrite Nat.eqb_refl. rewrite (Ihi _ _ Hn). rewrite pend_idle by auto. rewrite pend_idle by auto.
+    + rewrite Nat.eqb_refl. cbn [andb negb is_ostart]. rewrite (Ihi _ _ Hn). rewrite pend_idle by auto. rewrite pend_idle by auto.
       cbn. now rewrite !app_nil_r.
-    + apply Nat.eqb_neq in Nj. rewrite Nj. auto.
+    + apply Nat.eqb_neq in Nj. rewrite Nj. cbn [andb]. auto.
   - auto.
 Qed.
 
-Ltac st_simpl := cbn [lg_after lg_s lg_lo lg_threads lg_ghost l_started l_done l_busy l_start l_i] in *.
+Ltac st_simpl := cbn [lg_after lg_s lg_lo lg_threads lg_ghost l_started l_done l_busy l_start l_i l_fin] in *.
 
 (* a step that changes only the stepping thread's code (no ghost, state fields given explicitly) *)
 Lemma inv_step : forall g g', Inv g -> lgstep n d a doat_progs g g' -> Inv g'.
@@ -297,8 +299,8 @@ Proof.
         -- apply spec_res_app; auto. cbn. rewrite Icn. auto.
         -- rewrite count_next_app. lia.
         -- intros j th' H'. rewrite ghost_of_app. apply nth_lupd_inv in H'. destruct H' as [[-> ->]|[Nj H']].
-           ++ rewrite Nat.eqb_refl. rewrite (Ihi _ _ Hn). unfold pend. rewrite Hk. cbn. now rewrite app_nil_r.
-           ++ apply Nat.eqb_neq in Nj. rewrite Nj. auto.
+           ++ rewrite Nat.eqb_refl. cbn [andb negb is_ostart]. rewrite (Ihi _ _ Hn). unfold pend. rewrite Hk. cbn. now rewrite app_nil_r.
+           ++ apply Nat.eqb_neq in Nj. rewrite Nj. cbn [andb]. auto.
       * (* return *)
         constructor; st_simpl; auto; try (intros t0 Hf0; destruct (Ifx t0 Hf0); congruence).
         -- apply Forall_lupd; auto; try (apply nl_tl; auto).
@@ -417,23 +419,24 @@ Proof.
 Qed.
 
 (* ---------------------------------------------------------------- consequences *)
-Lemma spec_res_in n d a st gh : forall i j o r,
-  spec_res n d a st i gh -> In (j, o, r) gh ->
+Lemma spec_res_in n d a st gh : forall i j c o r,
+  spec_res n d a st i gh -> In (j, c, o, r) gh ->
   match o with
   | ONext => exists k, r = next_res n d a st k
   | OLeft => exists k, r = RLeft (Z.of_nat (n - k))
   | OStart _ => False
   end.
 Proof.
-  induction gh as [|[[j0 o0] r0] t IH]; intros i j o r H Hin; [destruct Hin|destruct Hin as [E|Hin]].
+  induction gh as [|[[[j0 c0] o0] r0] t IH]; intros i j c o r H Hin; [destruct Hin|destruct Hin as [E|Hin]].
   - inversion E; subst. destruct o; cbn in H; try tauto; destruct H as [-> _]; eauto.
   - destruct o0; cbn in H; try tauto; destruct H as [_ H]; eapply IH; eauto.
 Qed.
 
-Lemma ghost_of_in j gh r : In r (ghost_of j gh) -> exists o, In (j, o, r) gh.
+Lemma ghost_of_in j gh r : In r (ghost_of j gh) -> exists c o, In (j, c, o, r) gh.
 Proof.
-  unfold ghost_of. intros H. apply in_map_iff in H. destruct H as ([[j0 o] r0] & E & H).
-  apply filter_In in H. destruct H as [H Ej]. cbn in *. apply Nat.eqb_eq in Ej. subst. eauto.
+  unfold ghost_of. intros H. apply in_map_iff in H. destruct H as ([[[j0 c] o] r0] & E & H).
+  apply filter_In in H. destruct H as [H Ej]. cbn in *. apply andb_prop in Ej. destruct Ej as [Ej _].
+  apply Nat.eqb_eq in Ej. subst. eauto.
 Qed.
 
 (* every time handed out by Next is computed from the ONE start instant, and nobody gets a time
@@ -445,8 +448,8 @@ Proof.
   intros I j th t ok Hn Hin.
   assert (H : In (RNext t ok) (ghost_of j (lg_ghost g))).
   { rewrite (inv_hist _ _ _ _ _ _ _ I _ _ Hn). apply in_or_app. auto. }
-  apply ghost_of_in in H. destruct H as [o H].
-  pose proof (spec_res_in _ _ _ _ _ _ _ _ _ (inv_spec _ _ _ _ _ _ _ I) H) as Sp.
+  apply ghost_of_in in H. destruct H as (c & o & H).
+  pose proof (spec_res_in _ _ _ _ _ _ _ _ _ _ (inv_spec _ _ _ _ _ _ _ I) H) as Sp.
   destruct o; cbn in Sp; [destruct Sp| |destruct Sp as [k E]; discriminate].
   split; auto.
   destruct (l_done (lg_s g)) eqn:Hd; auto.
